@@ -72,7 +72,7 @@ vars == <<pc, cfg, nisList, dimList, priorNum, qpow, totalDim, total, k, metric,
 \* ---------------------------------------------------------------- chi-square bound
 \* BoundTable[a] : sequence of <<dofNum, dofDen, B>> sorted by dof, where the BigNat B is
 \* round(chi2.isf(threshold_a, dof) * BoundDen) and BoundDen = Base^2 = 10^8
-Band       == 2               \* |metric - bound| <= Band/BoundDen is left undecided
+Band       == 10              \* |metric - bound| <= Band/BoundDen (1e-7) is left undecided
 BoundTable == JsonDeserialize(IOEnv.BOUND_FILE)
 TimesBoundDen(x) == IF x = <<>> THEN <<>> ELSE <<0, 0>> \o x
 
